@@ -3,6 +3,7 @@
 //   mtblsim gen --engine E --prop P --tier T --seed S --run I
 //   mtblsim replay FILE [-v]
 #include "common.h"
+#include "tablelib.h"
 #include "../sim/simsched.h"
 #include <signal.h>
 #include <sys/personality.h>
@@ -95,6 +96,7 @@ int main(int argc, char **argv)
 		const Engine *e = find_engine(p.engine);
 		if (!e) { fprintf(stderr, "INFRA-ERROR unknown engine %s\n", p.engine.c_str()); return 2; }
 		watchdog(cpu_limit(p));
+		optvar_begin(p.seed * 1000003ULL + p.run);
 		RunResult r = e->exec(p);
 		watchdog(0);
 		printf("%s\n", r.line(p.run).c_str());
@@ -125,6 +127,7 @@ int main(int argc, char **argv)
 		// execute from the parsed text, never from the generator's in-memory state
 		Plan q; Plan::parse(text, q);
 		watchdog(cpu_limit(q));
+		optvar_begin(q.seed * 1000003ULL + q.run);
 		RunResult r = e->exec(q);
 		watchdog(0);
 		printf("%s\n", r.line(i).c_str());
